@@ -284,7 +284,7 @@ func TestC10(t *testing.T) {
 				labels = append(labels, "daemon-restarted")
 			}
 			st.Case(nt, labels...)
-			if st.WantSample() && s.Seq%17 == 0 {
+			if st.WantSample() {
 				st.Sample(map[string]interface{}{"site": s, "chain": sc.Summary(), "restarts": fr.Restarts})
 			}
 			if msg == "" {
